@@ -306,7 +306,19 @@ def main():
     pid = a.property
     seed = int(os.environ.get("VERIF_SEED", "20260930"))
     t0 = time.time()
-    sys.exit(props.check(pid, a.tier, seed, a, t0))
+    try:
+        rc = props.check(pid, a.tier, seed, a, t0)
+    except Exception:
+        # the machinery itself failed (e.g. the implementation's output could not be interpreted): the property is no
+        # longer shown to hold on this tree
+        import traceback
+        rd = os.path.join(EVID, "replay"); os.makedirs(rd, exist_ok=True)
+        rp = os.path.join(rd, "%s-machinery.txt" % pid)
+        open(rp, "w").write("the check could not complete:\n" + traceback.format_exc())
+        traceback.print_exc()
+        print("VIOLATION property=%s replay=%s no-failing-input-found" % (pid, rp))
+        rc = 1
+    sys.exit(rc)
 
 if __name__ == "__main__":
     main()
